@@ -7,13 +7,38 @@ import (
 	"verifharness/hx"
 )
 
-func emit(g *hx.Gen, c sauth.Cfg, reqs []sauth.Req) { g.Emit("%s", sauth.Finish(c, reqs)) }
+var tables *sauth.TableCov
+
+func emit(g *hx.Gen, c sauth.Cfg, reqs []sauth.Req) {
+	line := sauth.Finish(c, reqs) // normalises the requests (oracle fields, shapes)
+	sauth.PairStats(g, c, reqs)
+	tables.Record(c, reqs)
+	g.Emit("%s", line)
+}
 
 func clone(rs []sauth.Req) []sauth.Req { return append([]sauth.Req(nil), rs...) }
 
 func gen(g *hx.Gen) {
 	r := g.R
+	sauth.Init()
+	tables = sauth.ServerTables()
+	defer func() { tables.Report(g) }()
 	letters := sauth.Letters()
+	if g.N == 0 {
+		// every pair of model features, by construction
+		sauth.EmitPairs(g, func(c sauth.Cfg, reqs []sauth.Req) { emit(g, c, reqs) })
+		// every entry of the algorithm-name tables, as request algorithm and as signature format
+		for _, a := range sauth.AllAlgos() {
+			for _, k := range []int{1, 4, 6} {
+				q1, q2 := sauth.Sign(sauth.U0, k), sauth.Sign(sauth.U0, k)
+				q1.Algo, q2.SigFmt = a, a
+				q1.Cb, q1.Vcb, q2.Cb, q2.Vcb = "A1", "A1", "A1", "A1"
+				c := sauth.RandCfg(r, true)
+				emit(g, c, []sauth.Req{q1})
+				emit(g, c, []sauth.Req{q2})
+			}
+		}
+	}
 	L := len(letters)
 	maxLen := 3
 	tables := []int{0, 1, 2, 3, 4, 5}
@@ -61,7 +86,7 @@ func gen(g *hx.Gen) {
 		g.Stat("clause.signed-data")
 	}
 	// keyboard-interactive challenge rounds and gssapi-with-mic exchanges (follow-up packets)
-	nx := g.Count(2500, 60000)
+	nx := g.Count(2000, 60000)
 	for i := 0; i < nx && g.N == 0; i++ {
 		ln := r.Range(1, 4)
 		reqs := make([]sauth.Req, ln)
@@ -82,7 +107,7 @@ func gen(g *hx.Gen) {
 		g.Stat("exchange")
 	}
 	// random longer histories over the extended alphabet
-	n := g.Count(4000, 200000)
+	n := g.Count(3000, 200000)
 	for i := 0; i < n; i++ {
 		ln := r.Range(1, 12)
 		reqs := make([]sauth.Req, ln)
